@@ -1595,12 +1595,14 @@ M("o9-distribution-wrong-operand", "C04", "fire O9", "src/circuit.rs",
   """                        self.get_cached(&BuilderGate::And(y1, y)),
                         self.get_cached(&BuilderGate::And(y2, y)),""", "seed C01-c: x & (y1 ^ y2) looks up y1 & y and y2 & y")
 M("o10-factoring-inner-uses-shared", "C04", "fire O10", "src/circuit.rs",
-  """                        if a1 == b1 {
-                            let a2_xor_b2 = self.push_gate(BuilderGate::Xor(a2, b2));
-                            return self.push_gate(BuilderGate::And(a1, a2_xor_b2));""",
-  """                        if a1 == b1 {
-                            let a2_xor_b2 = self.push_gate(BuilderGate::Xor(a1, b2));
-                            return self.push_gate(BuilderGate::And(a1, a2_xor_b2));""", "(a&b)^(a&c) becomes a & (a ^ c)")
+  """                            let a2_xor_b2 = match self.optimize_xor(a2, b2) {
+                                Some(wire) => wire,
+                                None => self.push_gate(BuilderGate::Xor(a2, b2)),
+                            };""",
+  """                            let a2_xor_b2 = match self.optimize_xor(a1, b2) {
+                                Some(wire) => wire,
+                                None => self.push_gate(BuilderGate::Xor(a1, b2)),
+                            };""", "(a&b)^(a&c) becomes a & (a ^ c)")
 M("o10-pairing-row-duplicated", "C04", "fire O10", "src/circuit.rs",
   """                    for (a1, a2, b1, b2) in [
                         (x1, x2, y1, y2),
@@ -1609,7 +1611,7 @@ M("o10-pairing-row-duplicated", "C04", "fire O10", "src/circuit.rs",
                         (x2, x1, y2, y1),
                     ] {
                         if a1 == b1 {
-                            let a2_xor_b2""",
+                            // the two gates""",
   """                    for (a1, a2, b1, b2) in [
                         (x1, x2, y1, y2),
                         (x1, x2, y2, y1),
@@ -1617,7 +1619,7 @@ M("o10-pairing-row-duplicated", "C04", "fire O10", "src/circuit.rs",
                         (x2, x2, y2, y1),
                     ] {
                         if a1 == b1 {
-                            let a2_xor_b2""", "last pairing row names x2 twice")
+                            // the two gates""", "last pairing row names x2 twice")
 M("a4-mul-by-minus-one-identity", "C03", "fire A4", "src/compile.rs",
   """                        if n == 0 {
                             continue;
@@ -2464,4 +2466,5 @@ M("t15-range-suffix-unchecked", "C17", "fire T15", "src/check.rs",
   """                    expect_pattern_suffix(ty, Type::Unsigned(*suffix), meta)?;
                     expect_pattern_in_range(ty, *from as i128, *to as i128, meta)?;""",
   """                    expect_pattern_in_range(ty, *from as i128, *to as i128, meta)?;""", "the suffix of an unsigned range pattern is not compared with the matched type")
+REVERT("revert-factoring-folds", "C15", "fire U1", "b15ba9c", "pre-fix tree: the AND-factoring rewrite of push_xor emits its two gates raw")
 
